@@ -131,6 +131,35 @@ fn main() {
         total += 1;
         k += 1;
     }
+    // (c) a record of another content type arriving in the middle of a defragmentation (refused, state kept), then
+    // the completing fragment; and nocopy / reset in that state
+    let mut off = 0usize;
+    let mut k = 0u64;
+    while off + 4 <= data.len() && k < 600 {
+        let l = u32::from_le_bytes([data[off], data[off + 1], data[off + 2], data[off + 3]]) as usize;
+        off += 4;
+        let i = &data[off..off + l];
+        off += l;
+        if i.len() < 8 {
+            k += 1;
+            continue;
+        }
+        let mut p = TlsRecordsParser::default();
+        let mid = i.len() / 2;
+        let alert = [1u8, 0];
+        let mut h: u64 = 0xcbf2_9ce4_8422_2325;
+        let seq: [(u8, &[u8], bool); 5] = [(0x16, &i[..mid], false), (0x15, &alert[..], false), (0x17, &i[..3], k % 2 == 0), (0x16, &i[mid..], false), (0x15, &alert[..], false)];
+        for (ty, d, nocopy) in seq {
+            let rec = TlsRawRecord { hdr: TlsRecordHeader { record_type: TlsRecordType(ty), version: TlsVersion(0x0303), len: d.len().min(65535) as u16 }, data: d };
+            let r = if nocopy { p.parse_record_nocopy(rec) } else { p.parse_record(rec) };
+            fnv(&mut h, format!("{:?}", r).as_bytes());
+            drop(r);
+            fnv(&mut h, &[p.defrag_in_progress() as u8]);
+        }
+        let _ = writeln!(lock, "F {} {:016x}", k, h);
+        total += 1;
+        k += 1;
+    }
     // (b) a 2^24-1 byte handshake message streamed in 16384-byte records across the 10 MiB cap
     let mut p = TlsRecordsParser::default();
     let mut first = vec![20u8, 0xff, 0xff, 0xff];
